@@ -10,28 +10,46 @@ import ast
 from ..common import AnalysisError, rel
 from ..callgraph import CallGraph
 from ..connmodel import ConnModel, CONN
-from .. import terms
-from ..terms import (SymEval, Sym, Const, CallT, MethT, ObjT, OpT, TupleT,
-                     AttrT)
+from .. import terms, shared, pathsum
+from ..pathsum import struct, show, is_const, subterms
 
 ENC = 'minecraft.networking.encryption'
 
 
 def flatten_concat(t):
-    if isinstance(t, OpT) and t.op == 'Add':
+    if t[0] == 'op' and t[1] in ('+', 'concat'):
         out = []
-        for a in t.args:
+        for a in t[2]:
             out += flatten_concat(a)
         return out
     return [t]
 
 
+def value_of(S, fi):
+    vals = []
+    paths = S.run(fi)
+    for p in paths:
+        if p.returns:
+            vals.append((p, p.value))
+    uniq = []
+    for p, v in vals:
+        if struct(v) not in [struct(u) for _, u in uniq]:
+            uniq.append((p, v))
+    if len(uniq) != 1:
+        raise AnalysisError('%s: %d different results on its paths'
+                            % (fi.qualname, len(uniq)), fi.node,
+                            rel(fi.path))
+    return uniq[0]
+
+
 def run(report, db, tier):
     report.explanation = (
-        'Value-graph extraction (def-use substitution and inlining, no '
-        'execution) of generate_verification_hash and comparison with the '
-        'reference term; Python\'s format(n, "x") of a negative int is "-" + '
-        'magnitude, which is Java\'s BigInteger.toString(16).')
+        'The value generate_verification_hash returns is extracted as a '
+        'term (vp.pathsum: locals substituted, in-repo callees inlined, '
+        'the updates of the hash object kept in order; nothing executed) '
+        'and compared with the reference term; Python\'s format(n, "x") of a '
+        'negative int is "-" + magnitude, which is Java\'s '
+        'BigInteger.toString(16).')
     report.trusted_base = ['hashlib.sha1, int.from_bytes, format semantics']
     R1 = report.rule('R17.1', 'digest input: utf8(server_id), then the '
                      'shared secret, then the public key')
@@ -40,114 +58,129 @@ def run(report, db, tier):
     R3 = report.rule('R17.3', 'use site: (server_id, secret, public_key) in '
                      'parameter order; the result goes to join()')
     fi = db.get_func(ENC, 'generate_verification_hash')
-    S = SymEval(db)
+    cg = CallGraph(db)
+    helper = None
+
+    def summ(opaque=()):
+        return shared.summariser(
+            db, cg, opaque=opaque, implicit_raises=False)
+    S = summ()
+    S.inline_pred = lambda t: t.module.name == ENC
     try:
-        term = S.run(fi)
+        path, term = value_of(S, fi)
     except AnalysisError:
-        # not one straight-line term: look for a hand-written signed
-        # conversion helper and treat it as a unit of its own
+        # not one term: look for a hand-written signed conversion helper and
+        # treat it as a unit of its own
         helper = find_conversion_helper(db, fi)
         if helper is None:
             raise
-        S.opaque = {helper}
-        term = S.run(fi)
-        term = manual_signed(report, R2, db, helper, term)
-    report.note('extracted term', repr(term))
+        S = summ(opaque=[helper])
+        S.inline_pred = lambda t: t.module.name == ENC and t is not helper
+        path, term = value_of(S, fi)
+    report.note('extracted term', show(term))
     params = fi.params
     if len(params) != 3:
         raise AnalysisError('generate_verification_hash: expected 3 '
                             'parameters', fi.node, rel(fi.path))
     # ---- outermost: hex formatting
     num = None
-    if isinstance(term, CallT) and term.func == 'builtins.format' and \
-            len(term.args) == 2 and isinstance(term.args[1], Const):
-        spec = term.args[1].v
-        num = term.args[0]
-        if spec == 'x':
+    if term[0] == 'op' and term[1] == 'fmt' and is_const(term[2][0]):
+        spec = term[2][0][1]
+        num = term[2][1]
+        if spec in (':x', 'x'):
             report.ok(R2, "format(n, 'x')")
         else:
             report.violation(R2, 'format-spec', fi.path, fi.node,
                              fi.qualname, 'the number is formatted with %r; '
                              'Java prints lower-case hex without padding '
-                             "('x')" % (spec,))
-    elif isinstance(term, OpT) and term.op == 'Mod' and \
-            isinstance(term.args[0], Const) and term.args[0].v == '%x':
-        num = term.args[1]
-        report.ok(R2, "'%x' % n")
-    elif isinstance(term, CallT) and term.func == 'builtins.hex':
-        num = term.args[0] if term.args else None
+                             "('x')" % (spec.lstrip(':'),))
+    elif term[0] == 'op' and term[1] == 'hex':
+        num = term[2][0] if term[2] else None
         report.violation(R2, 'format-hex', fi.path, fi.node, fi.qualname,
                          "hex() prefixes '0x' (and '-0x'): not Java's "
                          'BigInteger.toString(16)')
     else:
         raise AnalysisError('generate_verification_hash: result is not a '
-                            'recognised hex formatting of a number: %r'
-                            % (term,), fi.node, rel(fi.path))
+                            'recognised hex formatting of a number: %s'
+                            % show(term), fi.node, rel(fi.path))
+    if helper is not None and num is not None and num[0] == 'call' and \
+            num[1][0] == 'fn' and num[1][1] is helper:
+        num = manual_signed(report, R2, db, helper, num)
     # ---- int.from_bytes(..., 'big', signed=True)
     dig = None
-    if isinstance(num, CallT) and num.func == 'int.from_bytes' and num.args:
-        dig = num.args[0]
-        bo = num.args[1] if len(num.args) > 1 else num.kw('byteorder')
-        sg = num.kw('signed', num.args[2] if len(num.args) > 2 else None)
-        if isinstance(bo, Const) and bo.v == 'big':
+    if num is not None and num[0] == 'call' and num[1] == (
+            'attr', ('builtin', 'int'), 'from_bytes') and num[2]:
+        dig = num[2][0]
+        kw = dict(num[3])
+        bo = num[2][1] if len(num[2]) > 1 else kw.get('byteorder')
+        sg = kw.get('signed', num[2][2] if len(num[2]) > 2 else None)
+        if bo == ('const', 'big'):
             report.ok(R2, "byteorder 'big'")
         else:
             report.violation(R2, 'byteorder', fi.path, fi.node, fi.qualname,
-                             'digest is interpreted with byteorder %r, not '
-                             "'big'" % (bo,))
-        if isinstance(sg, Const) and sg.v is True:
+                             'digest is interpreted with byteorder %s, not '
+                             "'big'" % (show(bo) if bo else None))
+        if sg == ('const', True):
             report.ok(R2, 'signed=True')
         else:
             report.violation(R2, 'signed', fi.path, fi.node, fi.qualname,
-                             'digest is interpreted as signed=%r: digests '
+                             'digest is interpreted as signed=%s: digests '
                              'with the top bit set must print as negative '
-                             'numbers' % (sg,))
+                             'numbers' % (show(sg) if sg else None))
     else:
         raise AnalysisError('generate_verification_hash: the number is not '
-                            'int.from_bytes(...) of the digest: %r' % (num,),
-                            fi.node, rel(fi.path))
+                            'int.from_bytes(...) of the digest: %s'
+                            % (show(num) if num else None), fi.node,
+                            rel(fi.path))
     # ---- sha1 object and its input
-    if not (isinstance(dig, MethT) and dig.name in ('digest', 'hexdigest')
-            and isinstance(dig.recv, ObjT)):
+    if not (dig[0] == 'call' and dig[1][0] == 'attr' and dig[1][2] in (
+            'digest', 'hexdigest') and dig[1][1][0] == 'call'):
         raise AnalysisError('generate_verification_hash: digest source not '
-                            'recognised: %r' % (dig,), fi.node, rel(fi.path))
-    if dig.name != 'digest':
+                            'recognised: %s' % show(dig), fi.node,
+                            rel(fi.path))
+    if dig[1][2] != 'digest':
         report.violation(R2, 'digest-kind', fi.path, fi.node, fi.qualname,
                          'uses %s() where the raw digest() is needed'
-                         % dig.name)
-    obj = dig.recv
-    if obj.ctor.func not in ('hashlib.sha1',):
+                         % dig[1][2])
+    obj = dig[1][1]
+    ctor = obj[1][1] if obj[1][0] == 'ext' else show(obj[1])
+    if ctor not in ('hashlib.sha1',):
         report.violation(R1, 'hash-function', fi.path, fi.node, fi.qualname,
                          'the digest is %s, the protocol prescribes SHA-1'
-                         % obj.ctor.func)
+                         % ctor)
     else:
         report.ok(R1, 'hashlib.sha1')
     pieces = []
-    for a in obj.ctor.args:
+    for a in obj[2]:
         pieces += flatten_concat(a)
-    for m, args in obj.effects:
-        if m != 'update' or len(args) != 1:
-            raise AnalysisError('unexpected effect on the hash object: %s'
-                                % m, fi.node, rel(fi.path))
-        pieces += flatten_concat(args[0])
+    evs = path.flat(('call',))
+    for e in evs:
+        if e.fn[0] == 'attr' and e.fn[1] == obj:
+            if e.res == dig:
+                break
+            if e.fn[2] != 'update' or len(e.args) != 1:
+                raise AnalysisError('unexpected effect on the hash object: '
+                                    '%s' % e.fn[2], e.node, rel(fi.path))
+            pieces += flatten_concat(e.args[0])
     want = ['utf8(%s)' % params[0], params[1], params[2]]
     got = []
     for p in pieces:
-        if isinstance(p, MethT) and p.name == 'encode' and \
-                isinstance(p.recv, Sym):
+        if p[0] == 'call' and p[1][0] == 'attr' and p[1][2] == 'encode' and \
+                p[1][1][0] == 'sym':
             enc = 'utf-8'
-            if p.args and isinstance(p.args[0], Const):
-                enc = p.args[0].v
-            elif p.kw('encoding') is not None:
-                enc = p.kw('encoding').v
-            if str(enc).lower().replace('-', '') == 'utf8':
-                got.append('utf8(%s)' % p.recv.name)
+            kw = dict(p[3])
+            if p[2] and is_const(p[2][0]):
+                enc = p[2][0][1]
+            elif 'encoding' in kw and is_const(kw['encoding']):
+                enc = kw['encoding'][1]
+            if str(enc).lower().replace('-', '').replace('_', '') == 'utf8':
+                got.append('utf8(%s)' % p[1][1][1])
             else:
-                got.append('%s(%s)' % (enc, p.recv.name))
-        elif isinstance(p, Sym):
-            got.append(p.name)
+                got.append('%s(%s)' % (enc, p[1][1][1]))
+        elif p[0] == 'sym':
+            got.append(p[1])
         else:
-            got.append(repr(p))
+            got.append(show(p))
     if got == want:
         report.ok(R1, 'sha1 input = %s' % ' || '.join(got))
     else:
@@ -156,47 +189,70 @@ def run(report, db, tier):
                          'prescribes %s' % (' || '.join(got) or '(nothing)',
                                             ' || '.join(want)))
     # ---- use site
-    cg = CallGraph(db)
     M = ConnModel(db, cg)
-    sites = cg.callers_of(fi)
-    report.floor('call sites of generate_verification_hash', len(sites), 1)
-    for cs in sites:
-        caller = cs.caller
-        args = [ast.unparse(a) for a in cs.node.args]
-        pk = caller.params[1] if len(caller.params) > 1 else 'packet'
-        # the secret argument: a local assigned from generate_shared_secret
-        sec = None
-        for n in ast.walk(caller.node):
-            if isinstance(n, ast.Assign) and isinstance(n.value, ast.Call) \
-                    and ast.unparse(n.value.func).endswith(
-                        'generate_shared_secret') and \
-                    isinstance(n.targets[0], ast.Name):
-                sec = n.targets[0].id
-        want_args = ['%s.server_id' % pk, sec, '%s.public_key' % pk]
-        if args == want_args and not cs.node.keywords:
-            report.ok(R3, '%s: %s(%s)' % (caller.qualname, fi.name,
-                                          ', '.join(args)))
-        else:
-            report.violation(R3, 'use-site:args', caller.path, cs.node,
-                             caller.qualname, 'called with (%s); expected '
-                             '(%s)' % (', '.join(args),
-                                       ', '.join(map(str, want_args))))
-        # result flows to auth_token.join
-        par = M.parents(caller)
-        p = par.get(id(cs.node))
-        var = p.targets[0].id if isinstance(p, ast.Assign) and isinstance(
-            p.targets[0], ast.Name) else None
-        joins = [n for n in ast.walk(caller.node) if isinstance(n, ast.Call)
-                 and isinstance(n.func, ast.Attribute)
-                 and n.func.attr == 'join' and 'auth_token' in
-                 ast.unparse(n.func.value)]
-        if var and joins and all(
-                [ast.unparse(a) for a in j.args] == [var] for j in joins):
-            report.ok(R3, 'auth_token.join(%s)' % var)
-        else:
-            report.violation(R3, 'use-site:join', caller.path, cs.node,
-                             caller.qualname, 'the hash is not what is '
-                             'passed to auth_token.join()')
+    SS = shared.summariser(db, cg)
+    inlined = set((db.norm_stats or {}).get('helpers', ()))
+    callers = sorted(set(cs.caller for cs in cg.callers_of(fi)
+                         if '%s:%s' % (cs.caller.module.name,
+                                       cs.caller.qualname) not in inlined),
+                     key=lambda f: f.qualname)
+    nsites = 0
+    gen = db.get_func(ENC, 'generate_shared_secret')
+    for caller in callers:
+        pk = ('sym', caller.params[1]) if len(caller.params) > 1 else \
+            ('sym', 'packet')
+        res = {}
+        for p in SS.run(caller):
+            evs = p.flat(('call',))
+            for e in evs:
+                if not e.calls(fi):
+                    continue
+                nsites += 1
+                names = fi.params
+                bound = dict(zip(names, e.args))
+                bound.update(dict(e.kwargs))
+                sec = bound.get(names[1])
+                okk = struct(bound.get(names[0], ('none',))) == (
+                    'attr', pk, 'server_id') and struct(
+                        bound.get(names[2], ('none',))) == (
+                            'attr', pk, 'public_key') and sec is not None \
+                    and sec[0] == 'call' and any(
+                        x.res == sec and x.calls(gen) for x in evs)
+                if not okk:
+                    res['use-site:args'] = (
+                        e.node, 'called with (%s); expected (packet.'
+                        'server_id, the fresh shared secret, packet.'
+                        'public_key)' % ', '.join(
+                            '%s=%s' % (k, show(v))
+                            for k, v in bound.items()))
+                joins = [x for x in evs if x.method() == 'join' and any(
+                    t[0] == 'attr' and t[2] == 'auth_token'
+                    for t in subterms(x.fn))]
+                if any([a for a in j.args if a[0] == 'call'] != [e.res]
+                       for j in joins):
+                    res['use-site:join'] = (
+                        e.node, 'the hash is not what is passed to '
+                        'auth_token.join()')
+                elif joins:
+                    res.setdefault('ok-join', None)
+                if okk:
+                    res.setdefault('ok-args', None)
+        for key, v in sorted(res.items()):
+            if v is None:
+                continue
+            report.violation(R3, key, caller.path, v[0], caller.qualname,
+                             v[1])
+        if 'use-site:args' not in res and 'ok-args' in res:
+            report.ok(R3, '%s: %s(packet.server_id, secret, packet.'
+                      'public_key)' % (caller.qualname, fi.name))
+        if 'use-site:join' not in res:
+            if 'ok-join' in res:
+                report.ok(R3, 'auth_token.join(hash)')
+            else:
+                report.violation(R3, 'use-site:join', caller.path,
+                                 caller.node, caller.qualname, 'the hash is '
+                                 'not what is passed to auth_token.join()')
+    report.floor('call sites of generate_verification_hash', nsites, 1)
 
 
 def find_conversion_helper(db, fi):
@@ -298,14 +354,7 @@ def manual_signed(report, R2, db, helper, term):
         report.ok(R2, 'hand-written signed conversion: negative iff signed '
                   'and first byte >= 0x80 (256 x 2 cases folded)')
 
-    def rewrite(t):
-        if isinstance(t, CallT) and t.func == helper.qualname:
-            return CallT('int.from_bytes', list(t.args[:1]) + [Const('big')],
-                         {'signed': t.kw(helper.params[1],
-                                         t.args[1] if len(t.args) > 1
-                                         else Const(False))})
-        if isinstance(t, CallT):
-            return CallT(t.func, [rewrite(a) for a in t.args],
-                         {k: rewrite(v) for k, v in t.kwargs})
-        return t
-    return rewrite(term)
+    signed = dict(term[3]).get(helper.params[1], term[2][1] if len(
+        term[2]) > 1 else ('const', False))
+    return ('call', ('attr', ('builtin', 'int'), 'from_bytes'),
+            (term[2][0], ('const', 'big')), (('signed', signed),), 0)
